@@ -3,11 +3,12 @@
 // Usage: xlate -repo /repo -spec spec.json -out /verif/coq/Gen
 //
 // A spec lists output files; each output file lists items:
-//   {"kind":"const","file":"crypto/keys.go","names":["Client"]}
-//   {"kind":"localconst","file":"crypto/cipher_decrypt.go","func":"Cipher.Decrypt","names":["maxPadding"]}
-//   {"kind":"func","file":"telegram/updates/gap_check.go","func":"checkGap",
-//    "name":"check_gap","params":["localState","remoteState","count"],
-//    "ret":"Z","rename":{"a.GetOffset()":"ao"},"skip":["a, b := e[i], e[j]"]}
+//
+//	{"kind":"const","file":"crypto/keys.go","names":["Client"]}
+//	{"kind":"localconst","file":"crypto/cipher_decrypt.go","func":"Cipher.Decrypt","names":["maxPadding"]}
+//	{"kind":"func","file":"telegram/updates/gap_check.go","func":"checkGap",
+//	 "name":"check_gap","params":["localState","remoteState","count"],
+//	 "ret":"Z","rename":{"a.GetOffset()":"ao"},"skip":["a, b := e[i], e[j]"]}
 //
 // The supported Go subset is: integer/boolean expressions, :=, =, op=, ++/--,
 // var declarations of integers, if/else, expression and tagless switch, return.
@@ -51,6 +52,10 @@ type Item struct {
 	Calls map[string]string `json:"calls"`
 	// Stmt selects one statement of Func by source-text prefix (kind "expr", see ext_expr.go).
 	Stmt string `json:"stmt"`
+	// Callee/Arg (kind "expr"): instead of the statement's own expression take argument number Arg
+	// (0-based) of the unique call of Callee (printed form, e.g. "io.LimitReader") inside the statement.
+	Callee string `json:"callee"`
+	Arg    int    `json:"arg"`
 	// Part = "init" selects the init statement of the matched `if` instead of its condition.
 	Part string `json:"part"`
 	// Also lists locals (typically renamed receiver fields) appended to every returned
@@ -65,8 +70,8 @@ type Item struct {
 	// in source order (k = 1..) is translated to the integer ErrBase + k.
 	ErrCalls []string `json:"errcalls"`
 	// Pkgs maps a package identifier used in File to its directory (kind "switchtable", ext_switch.go).
-	Pkgs map[string]string `json:"pkgs"`
-	ErrBase  int      `json:"errbase"`
+	Pkgs    map[string]string `json:"pkgs"`
+	ErrBase int               `json:"errbase"`
 	// ErrIsFn / ErrIs (b-rpc, C26): errors.Is(e, S) is translated to (ErrIsFn id) where id is
 	// ErrIs[source text of S]; a sentinel that is not in the table gets a stable id >= 1000
 	// derived from its text, so a classification function that grows a new errors.Is target
